@@ -843,10 +843,10 @@ PIPELINES = {
     "C09": check_pathrel,
     "C16": lambda tier, seed, work: check_codec("C16", tier, seed, work, ["key"]),
     "C17": check_enums,
-    "C18": lambda tier, seed, work: check_codec("C18", tier, seed, work, ["json", "tv"]),
+    "C18": lambda tier, seed, work: check_codec("C18", tier, seed, work, ["json", "tv", "tvtol"]),
     "C15": lambda tier, seed, work: check_helpers("C15", tier, seed, work, "omap"),
     "C34": lambda tier, seed, work: check_helpers("C34", tier, seed, work, "klist"),
-    "C31": lambda tier, seed, work: check_gnmiset("C31", tier, seed, work, "unmarshal,unmarshal-extra,unmarshal-extra-ignored", ["MergeFrame"]),
+    "C31": lambda tier, seed, work: check_gnmiset("C31", tier, seed, work, "unmarshal,unmarshal-extra,unmarshal-extra-ignored,setreq-extra,setreq-extra-ignored", ["MergeFrame"]),
 }
 
 ASSUME = ["the independent projector/builder in harness/internal/abs (reflection over struct tags) is correct; it is self-tested on every case (Project(Build(t)) = t)",
